@@ -68,23 +68,30 @@ struct Peek : yaclib::detail::BaseCore {
 // recorder where the event's counter lives; it adds no behaviour.
 std::ptrdiff_t gCountOffset = 0;
 bool gNaming = false;
+bool gInGet = false;  // the waiter is inside Future::Get()
 // address ranges of wait events that have been destroyed in this execution (and not been overwritten by a new one)
 std::vector<std::pair<const char*, const char*>> gDeadEvents;
+// … and of the MutexEvent (+ counter) parts of the wait events that are alive right now
+std::vector<std::pair<const char*, const char*>> gLiveEvents;
+void EraseRange(std::vector<std::pair<const char*, const char*>>& v, const char* b) {
+  for (auto it = v.begin(); it != v.end();) {
+    if (it->first == b) it = v.erase(it);
+    else ++it;
+  }
+}
 struct TracedEvent : yaclib::detail::MutexEvent {
   static constexpr std::size_t kSpan = sizeof(yaclib::detail::MutexEvent) + 2 * sizeof(std::size_t);
   TracedEvent() {
     if (!gNaming || vx::gCtx == nullptr) return;
     auto* b = reinterpret_cast<const char*>(this);
-    for (auto it = gDeadEvents.begin(); it != gDeadEvents.end();) {
-      if (it->first < b + kSpan && b < it->second) it = gDeadEvents.erase(it);  // the stack slot lives again
-      else ++it;
-    }
+    gLiveEvents.emplace_back(b, b + kSpan);
     vx::gCtx->NameObj(reinterpret_cast<char*>(this) + gCountOffset, "cnt", true);
   }
   ~TracedEvent() {
     if (!gNaming || vx::gCtx == nullptr) return;
     vx::gCtx->ForgetObj(reinterpret_cast<char*>(this) + gCountOffset);
     auto* b = reinterpret_cast<const char*>(this);
+    EraseRange(gLiveEvents, b);
     gDeadEvents.emplace_back(b, b + kSpan);
   }
 };
@@ -109,6 +116,9 @@ struct TracedEvent : yaclib::detail::MutexEvent {
 void CheckAlive(const void* obj) {
   if (gDeadEvents.empty() || vx::gCtx == nullptr || vx::gCtx->Cur()[0] != 'p') return;  // only the producers: the waiter reuses its own stack
   auto* p = reinterpret_cast<const char*>(obj);
+  for (auto& r : gLiveEvents) {
+    if (r.first <= p && p < r.second) return;  // part of an event that exists (stack slots are reused, also partially)
+  }
   for (auto& r : gDeadEvents) {
     if (r.first <= p && p < r.second) {
       FatalViolation("a completion touched the waiter's event after the wait had returned (stack use after return)");
@@ -118,13 +128,16 @@ void CheckAlive(const void* obj) {
 
 // extent of the untraced wait event of Future::Get() && / SharedFuture::Get(): Wait(*this) with the default event, one future
 using GetEvent = yaclib::detail::MultiEvent<yaclib::detail::DefaultEvent, yaclib::detail::OneCounter, yaclib::detail::CallCallback>;
-std::ptrdiff_t gGetCallbackOffset = 0;
+std::ptrdiff_t gGetCallbackOffset = 0;  // of the callback node inside the event
+std::ptrdiff_t gGetMutexOffset = 0;     // of the MutexEvent part inside the event
+const char* gGetEventLive = nullptr;    // the MutexEvent part of the Get event that is alive right now
 
 void ComputeCountOffset() {
   {
     GetEvent sample{1};
     gGetCallbackOffset = reinterpret_cast<char*>(static_cast<yaclib::detail::InlineCore*>(&sample.GetCall())) -
                          reinterpret_cast<char*>(&sample);
+    gGetMutexOffset = reinterpret_cast<char*>(static_cast<yaclib::detail::DefaultEvent*>(&sample)) - reinterpret_cast<char*>(&sample);
   }
   using AC = yaclib::detail::AtomicCounter<TracedEvent, yaclib::detail::SetDeleter>;
   AC sample{1};
@@ -239,6 +252,9 @@ bool CallOn(const CallSpec& c, V& fs) {
 void RunScenario(const Scenario& sc) {
   QuarantineScope quarantine;
   gDeadEvents.clear();
+  gLiveEvents.clear();
+  gInGet = false;
+  gGetEventLive = nullptr;
   gObs = Observed{};
   gObs.invoked.assign(sc.n, 0);
   gObs.subinv.assign(sc.n, 0);
@@ -319,12 +335,18 @@ void RunScenario(const Scenario& sc) {
           vx::Ev("invoke " + std::to_string(i) + " " + gObs.val[i]);
         });
       } else if (sc.fin[i] == "get") {
+        gInGet = true;
         if (sc.Shared(i)) {
           const auto& r = sf[i].Get();
           gObs.val[i] = Show(r);
         } else {
           auto r = std::move(uf[i]).Get();
           gObs.val[i] = Show(r);
+        }
+        gInGet = false;
+        if (gGetEventLive != nullptr) {
+          EraseRange(gLiveEvents, gGetEventLive);
+          gGetEventLive = nullptr;
         }
         ++gObs.got[i];
         vx::Ev("got " + std::to_string(i) + " " + gObs.val[i]);
@@ -529,16 +551,12 @@ int main(int argc, char** argv) {
                                        unsigned long long e, unsigned long long r, int ok) {
     CheckAlive(obj);
     auto* ctx = static_cast<vx::Ctx*>(c);
-    if ((op == yaclib::verif::kCasStrong || op == yaclib::verif::kCasWeak) && ok != 0 && !gDeadEvents.empty() && ctx->Cur() == "c" &&
-        a != 0 && a != ~0ULL) {
-      // the waiter registers a callback: if it is the node of Get's untraced wait event, a dead event overlapping that event's
-      // extent has been overwritten — its stack slot lives again (traced events do this in their constructor)
-      auto* p = reinterpret_cast<const char*>(static_cast<std::uintptr_t>(a));
-      for (auto it = gDeadEvents.begin(); it != gDeadEvents.end();) {
-        const char* b = p - gGetCallbackOffset;
-        if (it->first < b + sizeof(GetEvent) && b < it->second) it = gDeadEvents.erase(it);
-        else ++it;
-      }
+    if ((op == yaclib::verif::kCasStrong || op == yaclib::verif::kCasWeak) && ok != 0 && gInGet && ctx->Cur() == "c" && a != 0 &&
+        a != ~0ULL) {
+      // Get's own (untraced) wait event registers its callback node: its MutexEvent part is alive until Get returns
+      const char* b = reinterpret_cast<const char*>(static_cast<std::uintptr_t>(a)) - gGetCallbackOffset + gGetMutexOffset;
+      gGetEventLive = b;
+      gLiveEvents.emplace_back(b, b + sizeof(yaclib::detail::DefaultEvent));
     }
     ctx->OnAtomic(obj, op, so, fo, a, e, r, ok);
   };
